@@ -430,15 +430,22 @@ def inline_simple_calls(P: Program, e: ast.expr, depth: int = 3) -> ast.expr:
             if any(isinstance(x, ast.Name) and x.id == "property" for x in d.decorators()):
                 return c
             body = [s for s in d.node.body if not (isinstance(s, ast.Expr) and isinstance(s.value, ast.Constant))]
-            if len(body) != 1 or not isinstance(body[0], ast.Return) or body[0].value is None:
+            # straight-line body:  (name = expr)*  return expr
+            if not body or not isinstance(body[-1], ast.Return) or body[-1].value is None:
                 return c
+            loc = {}
+            for st in body[:-1]:
+                if isinstance(st, ast.Assign) and len(st.targets) == 1 and isinstance(st.targets[0], ast.Name) and st.targets[0].id not in loc:
+                    loc[st.targets[0].id] = norm.subst(st.value, loc)
+                else:
+                    return c
             params = d.params()
             if len(params) != len(c.args) + 1:
                 return c
             env = {params[0]: c.func.value}
             for p_, a in zip(params[1:], c.args):
                 env[p_] = a
-            return norm.Subst(env).visit(norm.clone(body[0].value))
+            return norm.Subst(env).visit(norm.clone(norm.subst(body[-1].value, loc)))
 
     out = norm.clone(e)
     for _ in range(depth):
